@@ -339,6 +339,65 @@ func sigVariants() []sigVariant {
 			// public key, which is all the property asks; debsign and rpm refuse - then as a signing failure)
 		}, expect: "either"})
 	}
+	// a callback AND a key file: the callback is the signer (it is what the documentation of SignFn says), and it is
+	// handed the bytes the stored signature covers
+	vs = append(vs, sigVariant{name: "debsign-callback-and-keyfile", format: "deb", tweak: func(info *nfpm.Info, rec *cbRecord) {
+		info.Deb.Signature.KeyFile = testdata("privkey_unprotected.asc")
+		info.Deb.Signature.SignFn = func(r io.Reader) ([]byte, error) {
+			data, _ := io.ReadAll(r)
+			rec.calls = append(rec.calls, data)
+			var sig bytes.Buffer
+			err := openpgp.ArmoredDetachSign(&sig, ent(), bytes.NewReader(data), nil)
+			return sig.Bytes(), err
+		}
+	}, expect: "ok"})
+	vs = append(vs, sigVariant{name: "rpm-callback-and-keyfile", format: "rpm", tweak: func(info *nfpm.Info, rec *cbRecord) {
+		info.RPM.Signature.KeyFile = testdata("privkey_unprotected.asc")
+		info.RPM.Signature.SignFn = func(r io.Reader) ([]byte, error) {
+			data, _ := io.ReadAll(r)
+			rec.calls = append(rec.calls, data)
+			var sig bytes.Buffer
+			err := openpgp.DetachSign(&sig, ent(), bytes.NewReader(data), nil)
+			return sig.Bytes(), err
+		}
+	}, expect: "ok"})
+	vs = append(vs, sigVariant{name: "apk-callback-and-keyfile", format: "apk", tweak: func(info *nfpm.Info, rec *cbRecord) {
+		info.APK.Signature.KeyName = "cb"
+		info.APK.Signature.KeyFile = testdata("rsa_unprotected.priv")
+		info.APK.Signature.SignFn = func(r io.Reader) ([]byte, error) {
+			data, _ := io.ReadAll(r)
+			rec.calls = append(rec.calls, data)
+			return rsa.SignPKCS1v15(nil, rsaKey(testdata("rsa_unprotected.priv")), crypto.SHA1, data)
+		}
+	}, expect: "ok"})
+	// key files at the edges: one that exists and is empty (a signing failure, not a crash), one reached through a
+	// symbolic link (a key like any other)
+	for _, v := range []struct{ name, format, method string }{{"debsign", "deb", ""}, {"dpkgsig", "deb", "dpkg-sig"}, {"rpm", "rpm", ""}, {"apk", "apk", ""}} {
+		v := v
+		set := func(info *nfpm.Info, path string) {
+			switch v.format {
+			case "deb":
+				info.Deb.Signature.KeyFile, info.Deb.Signature.Method = path, v.method
+			case "rpm":
+				info.RPM.Signature.KeyFile = path
+			case "apk":
+				info.APK.Signature.KeyFile, info.APK.Signature.KeyName = path, "verif"
+			}
+		}
+		vs = append(vs, sigVariant{name: v.name + "-keyfile-empty", format: v.format, tweak: func(info *nfpm.Info, _ *cbRecord) {
+			must(os.WriteFile("empty.key", nil, 0o600))
+			set(info, "empty.key")
+		}, expect: "signing-error"})
+		vs = append(vs, sigVariant{name: v.name + "-keyfile-symlink", format: v.format, tweak: func(info *nfpm.Info, _ *cbRecord) {
+			real := testdata("privkey_unprotected.asc")
+			if v.format == "apk" {
+				real = testdata("rsa_unprotected.priv")
+			}
+			os.Remove("current.key")
+			must(os.Symlink(real, "current.key"))
+			set(info, "current.key")
+		}, expect: "ok"})
+	}
 	type rk struct{ name, file, pass string }
 	for _, k := range []rk{{"rsa", testdata("rsa_unprotected.priv"), ""}, {"rsa-protected", testdata("rsa.priv"), testPass}, {"rsa-pkcs8", testdata("rsa_pkcs8.priv"), testPass}} {
 		k := k
@@ -585,9 +644,9 @@ func runC10Case(w *caseWriter, id string, d sigDesc, variants map[string]sigVari
 			}
 			st.verified++
 		}
-		if len(rec.calls) > 0 {
+		if len(rec.calls) > 0 || info0.Deb.Signature.SignFn != nil {
 			want := signed
-			if info0.Deb.Signature.Method == "dpkg-sig" {
+			if info0.Deb.Signature.Method == "dpkg-sig" && len(names) > 0 {
 				// the callback is handed the manifest: it must be the text the signature member carries
 				if blk, _ := clearsign.Decode(o.SigMembers[names[0]]); blk != nil {
 					want = blk.Plaintext
@@ -614,7 +673,7 @@ func runC10Case(w *caseWriter, id string, d sigDesc, variants map[string]sigVari
 			w.line("sverify %s %d %s", xs(n), b2i(e == nil), gpgVerify(sig, data))
 			st.verified++
 		}
-		if len(rec.calls) > 0 {
+		if len(rec.calls) > 0 || info0.RPM.Signature.SignFn != nil {
 			full := append(append([]byte{}, hdr...), payload...)
 			okc := len(rec.calls) == 2 && bytes.Equal(rec.calls[0], hdr) && bytes.Equal(rec.calls[1], full)
 			w.line("scallback %d %d", len(rec.calls), b2i(okc))
@@ -644,7 +703,7 @@ func runC10Case(w *caseWriter, id string, d sigDesc, variants map[string]sigVari
 			w.line("sverify %s %d -", xs(n), b2i(e == nil))
 			st.verified++
 		}
-		if len(rec.calls) > 0 {
+		if len(rec.calls) > 0 || info0.APK.Signature.SignFn != nil {
 			w.line("scallback %d %d", len(rec.calls), b2i(len(rec.calls) == 1 && bytes.Equal(rec.calls[0], digest[:])))
 			st.callbacks++
 		}
